@@ -21,6 +21,19 @@ CURATED = {
     "deprotonation": "[CH3:1][C:2](=[O:3])[O:4][H:5].[O-:6][H:7]>>[CH3:1][C:2](=[O:3])[O-:4].[H:5][O:6][H:7]",
     "hydride_addition": "[CH3:1][C:2]([H:6])=[O:3].[H-:4]>>[CH3:1][C:2]([H:6])([H:4])[O-:3]",
     "acylation_dmap": "[CH3:1][C:2](=[O:3])[Cl:4].[CH3:5][O:6][H:7].[CH3:8][N:9]([CH3:10])[c:11]1[cH:12][cH:13][n:14][cH:15][cH:16]1>>[CH3:1][C:2](=[O:3])[O:6][CH3:5].[Cl-:4].[CH3:8][N:9]([CH3:10])[c:11]1[cH:12][cH:13][n+:14]([H:7])[cH:15][cH:16]1",
+    # same-element atoms that differ only in charge next to the centre; the hydrogen leaves as a bare proton
+    "phosphate_deprotonation": "[CH3:1][O:2][P:3](=[O:4])([O-:5])[O:6][H:7]>>[CH3:1][O:2][P:3](=[O:4])([O-:5])[O-:6].[H+:7]",
+    "sulfonate_protonation": "[CH3:1][S:2](=[O:3])(=[O:4])[O-:5].[H+:6]>>[CH3:1][S:2](=[O:3])(=[O:4])[O:5][H:6]",
+    # two copies of the same molecule on one side
+    "ether_formation": "[CH3:1][O:2][H:3].[CH3:4][O:5][H:6]>>[CH3:1][O:2][CH3:4].[H:3][O:5][H:6]",
+    "aldol": "[CH3:1][C:2]([H:8])=[O:3].[C:4]([H:9])([H:10])([H:11])[C:5]([H:12])=[O:6]>>[CH3:1][C:2]([H:8])([O:3][H:9])[C:4]([H:10])([H:11])[C:5]([H:12])=[O:6]",
+    "anhydride_formation": "[CH3:1][C:2](=[O:3])[O:4][H:9].[CH3:5][C:6](=[O:7])[O:8][H:10]>>[CH3:1][C:2](=[O:3])[O:4][C:6](=[O:7])[CH3:5].[H:9][O:8][H:10]",
+    # an aromatic ring is formed (opened when applied backwards)
+    "paal_knorr_furan": "[CH3:1][C:2](=[O:3])[C:4]([H:9])([H:10])[C:5]([H:11])([H:12])[C:6](=[O:7])[CH3:8]>>[CH3:1][c:2]1[c:4]([H:9])[c:5]([H:11])[c:6]([CH3:8])[o:3]1.[H:10][O:7][H:12]",
+    "paal_knorr_pyrrole": "[CH3:1][C:2](=[O:3])[C:4]([H:9])([H:10])[C:5]([H:11])([H:12])[C:6](=[O:7])[CH3:8].[CH3:13][N:14]([H:15])[H:16]>>[CH3:1][c:2]1[c:4]([H:9])[c:5]([H:11])[c:6]([CH3:8])[n:14]1[CH3:13].[H:10][O:7][H:12].[H:15][O:3][H:16]",
+    "alkyne_trimerisation": "[CH3:7][C:1]#[CH:2].[CH:3]#[CH:4].[CH:5]#[CH:6]>>[CH3:7][c:1]1[cH:2][cH:3][cH:4][cH:5][cH:6]1",
+    # both partners unsymmetrical: two regioisomers exist, the rule's only symmetry is the joint flip
+    "diels_alder_unsym": "[CH3:17][C:1]([H:7])=[C:2]([H:9])[C:3]([H:10])=[C:4]([H:11])[H:12].[C:5]([H:13])([H:14])=[C:6]([H:15])[C:16]#[N:18]>>[CH3:17][C:1]1([H:7])[C:2]([H:9])=[C:3]([H:10])[C:4]([H:11])([H:12])[C:5]([H:13])([H:14])[C:6]1([H:15])[C:16]#[N:18]",
     "transesterification": "[CH3:1][C:2](=[O:3])[O:4][CH3:5].[CH3:6][CH2:7][O:8][H:9]>>[CH3:1][C:2](=[O:3])[O:8][CH2:7][CH3:6].[CH3:5][O:4][H:9]",
 }
 
